@@ -127,6 +127,28 @@ fn main() {
                         if r != "same" {
                             viol.push("roundtrip");
                         }
+                        // the same through a sink that accepts at most 3 bytes per call (io::Write allows
+                        // short writes): what arrives must be the same text
+                        struct Chunky(Vec<u8>);
+                        impl std::io::Write for Chunky {
+                            fn write(&mut self, b: &[u8]) -> std::io::Result<usize> {
+                                let n = b.len().min(3);
+                                self.0.extend_from_slice(&b[..n]);
+                                Ok(n)
+                            }
+                            fn flush(&mut self) -> std::io::Result<()> {
+                                Ok(())
+                            }
+                        }
+                        let mut ch = Chunky(Vec::new());
+                        match guarded(|| aisle::write(conf, &mut ch)) {
+                            Ok(Ok(())) => {
+                                if ch.0 != text.as_bytes() {
+                                    viol.push("roundtrip_short_writes");
+                                }
+                            }
+                            _ => viol.push("write"),
+                        }
                     }
                     _ => {
                         w = "-".into();
